@@ -1123,3 +1123,97 @@ Proof.
     apply rest_inj in Hr. exact Hr.
 Qed.
 End TupleStr.
+
+(* ------------------------------------------------------------------ models parametrised by the regenerated source facts *)
+Lemma first_failure_none : forall natm flat mx cs c,
+  first_failure natm flat mx cs = None -> In c cs -> check_fails natm flat mx c = None.
+Proof.
+  induction cs as [|a cs IH]; simpl; intros c H Hin; [contradiction|].
+  destruct (check_fails natm flat mx a) eqn:Ea; [discriminate|].
+  destruct Hin as [Hin|Hin]; [subst; assumption|apply IH; assumption].
+Qed.
+
+Lemma existsb_check_in : forall c cs, existsb (dmet_check_eqb c) cs = true -> In c cs.
+Proof.
+  intros c cs H. apply existsb_exists in H. destruct H as (x & Hx & Heq).
+  destruct c, x; simpl in Heq; try discriminate; assumption.
+Qed.
+
+Lemma mapM_py_index_range : forall natm (flat : list Z),
+  (forall x, In x flat -> (0 <= x < Z.of_nat natm)%Z) ->
+  mapM (fun i => match py_index natm i with Some k => Ok k | None => Err IndexError end) flat = Ok (map Z.to_nat flat).
+Proof.
+  intros natm flat Hr. induction flat as [|x r IH]; simpl; [reflexivity|].
+  assert (Hx : (0 <= x < Z.of_nat natm)%Z) by (apply Hr; left; reflexivity).
+  unfold py_index at 1. destruct (0 <=? x)%Z eqn:E0; [|lia]. destruct (x <? Z.of_nat natm)%Z eqn:E1; [|lia].
+  simpl. rewrite IH; [reflexivity|]. intros y Hy; apply Hr; right; assumption.
+Qed.
+
+(* whenever the source's check chain contains the four tests, acceptance means: permutation, counts sum to natm *)
+Lemma dmet_src_permutation : forall cs, checks_cover cs = true ->
+  forall natm fa nf sv op b,
+    dmet_book_src cs natm fa nf sv op = Ok b ->
+    Permutation (b_order b) (seq 0 natm) /\ zsum (b_counts b) = Z.of_nat natm
+    /\ match fa with
+       | FaCounts l => b_order b = seq 0 natm /\ b_counts b = l
+       | FaNested l => b_order b = map Z.to_nat (concat l) /\ b_counts b = map (fun f => Z.of_nat (length f)) l
+       end.
+Proof.
+  intros cs Hc natm fa nf sv op b. unfold checks_cover in Hc.
+  apply andb_true_iff in Hc. destruct Hc as [Hc Hcov]. apply andb_true_iff in Hc. destruct Hc as [Hc Honce].
+  apply andb_true_iff in Hc. destruct Hc as [Hhi Hneg].
+  apply existsb_check_in in Hhi. apply existsb_check_in in Hneg. apply existsb_check_in in Honce. apply existsb_check_in in Hcov.
+  unfold dmet_book_src. destruct fa as [l|l].
+  - intros H. apply dmet_tail_ok in H. destruct H as (Ho & Hcn & Hs & _).
+    rewrite Ho, Hcn. rewrite seq_length in Hs. repeat split; auto.
+  - destruct (zmax (concat l)) as [mx|] eqn:Emx; [|discriminate].
+    destruct (first_failure natm (concat l) mx cs) as [e|] eqn:Eff; [discriminate|].
+    pose proof (first_failure_none _ _ _ _ _ Eff Hhi) as F1. pose proof (first_failure_none _ _ _ _ _ Eff Hneg) as F2.
+    pose proof (first_failure_none _ _ _ _ _ Eff Honce) as F3. pose proof (first_failure_none _ _ _ _ _ Eff Hcov) as F4.
+    simpl in F1, F2, F3, F4.
+    destruct (Z.of_nat natm <=? mx)%Z eqn:Ehi; [discriminate|].
+    destruct (existsb (fun i => (i <? 0)%Z) (concat l)) eqn:Eneg; [discriminate|].
+    destruct (Nat.eqb (length (concat l)) (length (nodup Z.eq_dec (concat l)))) eqn:End; simpl in F3; [|discriminate].
+    destruct (Nat.eqb (length (concat l)) natm) eqn:Elen; simpl in F4; [|discriminate].
+    apply Nat.eqb_eq in End. apply Nat.eqb_eq in Elen. apply Z.leb_gt in Ehi.
+    assert (Hnd : NoDup (concat l)) by (apply nodup_length_NoDup; congruence).
+    assert (Hrange : forall x, In x (concat l) -> (0 <= x < Z.of_nat natm)%Z).
+    { intros x Hx. split.
+      - destruct (x <? 0)%Z eqn:Ex; [|lia].
+        assert (existsb (fun i => (i <? 0)%Z) (concat l) = true) by (apply existsb_exists; eauto). congruence.
+      - pose proof (zmax_ge _ _ _ Emx Hx). lia. }
+    rewrite (mapM_py_index_range natm (concat l) Hrange). simpl.
+    intros H. apply dmet_tail_ok in H. destruct H as (Ho & Hcn & Hs & _).
+    rewrite Ho, Hcn. rewrite map_length in Hs. split; [|split; [|split; reflexivity]].
+    + apply NoDup_Permutation_bis.
+      * apply NoDup_map_in; [|assumption].
+        intros x y Hx Hy Hxy. apply Hrange in Hx. apply Hrange in Hy. lia.
+      * rewrite map_length, seq_length. lia.
+      * intros k Hk. apply in_map_iff in Hk. destruct Hk as (x & Hx & Hin); subst.
+        apply Hrange in Hin. apply in_seq. lia.
+    + rewrite <- Hs. lia.
+Qed.
+
+(* the chain of the original source is the as-is model *)
+Lemma dmet_src_asis : forall natm fa nf sv op,
+  dmet_book_src [ChkHigher; ChkOnce] natm fa nf sv op = dmet_book_asis natm fa nf sv op.
+Proof.
+  intros natm fa nf sv op. destruct fa as [l|l]; [reflexivity|]. unfold dmet_book_src, dmet_book_asis.
+  destruct (zmax (concat l)) as [mx|]; [|reflexivity]. simpl.
+  destruct (Z.of_nat natm <=? mx)%Z; [reflexivity|].
+  destruct (negb (Nat.eqb (length (concat l)) (length (nodup Z.eq_dec (concat l))))); reflexivity.
+Qed.
+
+Section SrcOniom.
+  Variable R : CRing.
+  Variable E : level -> geometry R -> R.
+  Lemma oniom_src_telescopes : forall copies, copies = true ->
+    forall (sys : geometry R) pre post L e,
+      Forall (same_level R) (pre ++ post) ->
+      oniom_src copies E sys (pre ++ sys_fragment R L :: post) = Ok e -> e = E L sys.
+  Proof. intros copies Hc; subst. exact (oniom_repaired_telescopes R E). Qed.
+
+  Lemma distribute_src_unchanged : forall copies, copies = true ->
+    forall (sys : geometry R) frs d, distribute_src copies sys frs = Ok d -> fst d = sys /\ length (snd d) = length frs.
+  Proof. intros copies Hc; subst. exact (distribute_repaired_geometry_unchanged R). Qed.
+End SrcOniom.
